@@ -4443,10 +4443,9 @@ class FlowIR(object):
 
                 weights.append(stage_weight)
 
-            # VV: adding floats is hard, let's assume that there're at most 2 decimals
-            int_weights = [int(e * 1000) for e in weights]
-
-            if sum(int_weights) != 1000 or min(weights) < 0:
+            # VV: adding floats is hard: compare the sum with a tolerance instead of truncating each weight
+            #     (int(0.57 * 1000) is 569). Written so that nan/inf weights are replaced too
+            if not (abs(sum(weights) - 1.0) <= 1e-6 and min(weights) >= 0):
                 fallbackWeight = int(1000 / num_stages) / 1000.0
 
                 flowirLogger.log(19, "Stage weights do not add to one (or are negative): %s = %3.3lf\n" % (weights, sum(weights)))
